@@ -5,15 +5,24 @@ Lean side: lean/Ekit/Props/C09b.lean (theorems c09_*), lean/Audit/C09b.lean (the
 append to Audit/C09.lean; Props/C09.lean must `import Ekit.Props.C09b`).
 The skeleton theorems refer to namespace Ekit.Gen.SkelC09 (generic("C09", ..., skel=[... + SKEL]))."""
 
+import os as _os
+from checklib import core as _core
+
 SKEL = ["queue/delay_queue.go"]
+
+# The harness confirms timing-sensitive complaints itself before they reach the pipeline: it is told where
+# the Lean acceptor is (the freshly built driver, else the reference copy) and re-executes a scenario whose
+# only complaints are timing-sensitive (wake-up bound, watchdog, order of near deadlines, model replay);
+# see harness/delayq/main.go `confirm` and the header of lean/Driver/DelayQ.lean.
+DRIVER_ENV = {"VERIF_DRIVER": _os.pathsep.join([_core.DRIVER, _os.path.join(_core.VERIF, "build", "driver.ref")])}
 
 # same harness and driver area as C08, generator focused on parked calls, cancellations at every
 # blocking point and bounded queues (capacity-conservation probe at the end of every bounded case)
 CORRS = [
     dict(harness="delayq", area="delayq", name="delayq-wake-sync", gen_args=["-focus", "wake"],
-         env={"GODEBUG": "asynctimerchan=0"}),
+         env=dict(DRIVER_ENV, GODEBUG="asynctimerchan=0")),
     dict(harness="delayq", area="delayq", name="delayq-wake-async", gen_args=["-focus", "wake"],
-         env={"GODEBUG": "asynctimerchan=1"}),
+         env=dict(DRIVER_ENV, GODEBUG="asynctimerchan=1")),
 ]
 
 TEXT = ("DelayQueue share (Ekit/Props/C09b.lean, same transition system as C08, any number of threads, both timer "
@@ -32,12 +41,3 @@ NOTE = (" DelayQueue share: wall-clock promptness, scheduler fairness and time.T
         "legitimately loop when another consumer took the element). Mutex, channels, select, timers (both asynctimerchan "
         "modes) and context are modelled by definition.")
 
-# checklib/registry.py discovers every module of this package whose name starts with "C" and expects
-# CHECK and MANIFEST in it.  `./check C09b_part` therefore runs just this share of C09 (same Lean
-# modules Ekit.Props.C09 / Audit/C09 as the merged check); it is not a property of its own and does
-# not appear in MANIFEST.json (mkmanifest lists only ids from properties.jsonl).
-from checklib.registry import generic, COMMON_NOTE  # noqa: E402
-
-CHECK = generic("C09", CORRS, skel=SKEL)
-MANIFEST = dict(text=TEXT, note=COMMON_NOTE + NOTE,
-                technique="Lean 4 invariant + enabledness proofs, regenerated sync skeletons, timed concurrent histories")
